@@ -381,6 +381,31 @@ def r07_6(run):
                    "the reset is reached on every iteration for a tensor with a lingering base and no creator" if ok else
                    f"for {'non-view' if base_is_none else 'view'} ops a graph-cleared view keeps its stale base: its gradient is derived from the wrong tensor "
                    f"/ reads None in the next iteration", path=cfgs.path_text(wit) if wit else None)
+    # (a'') detaching a stale view changes which slot Tensor.grad reads (its own _grad instead of the base's): the view's own slot must be
+    #       brought in line in the same step, otherwise a gradient that already read None (or another value) reappears after a pure view op
+    for lp in loops:
+        if not isinstance(lp.target, ast.Name):
+            continue
+        v = lp.target.id
+        stale = [s for s in own_nodes(lp) if isinstance(s, ast.Assign) and any(norm(t) == f"{v}._base" for t in s.targets)
+                 and isinstance(s.value, ast.Constant) and s.value.value is None]
+        for st_ in stale:
+            assume = dict(base_assume)
+            assume.update({f"isinstance({v}, Tensor)": True, f"{v}._base is not None and {v}._creator is None": True,
+                           "base is None": False, "base is not None": True})
+            cfgv = build_cfg(run, fi, assume)
+            head = cfgv.node_for(lp)
+            nst = cfgv.node_for(st_)
+            own = {cfgv.node_for(s) for s in own_nodes(lp) if isinstance(s, ast.Assign) and any(norm(t) == f"{v}._grad" for t in s.targets)}
+            own |= {cfgv.stmt_node_containing(c) for c in calls_named(lp, "null_grad") if norm(c.func.value) == v}
+            own.discard(None)
+            ok = nst is not None and bool(own) and all(
+                cfgv.all_paths_hit(succ, own | {nst}, exits=(head,)) is None for succ in cfgv.succ_by_kind(head, "loop")) and \
+                any(cfgv.dominates(o, nst) or cfgv.dominates(nst, o) for o in own)
+            run.ob("R07.6", loc(fi, st_), fi.short, "detaching a stale view in a view op also settles the view's own gradient slot", ok,
+                   f"a store to {v}._grad accompanies `{v}._base = None` on the view-op path" if ok else
+                   f"`{v}._base = None` alone: Tensor.grad switches from the base-derived value to the view's private _grad, which still holds the "
+                   f"gradient of the earlier backward -- a discarded gradient (or a different value) reappears after a pure view op")
     # null_grad itself nulls both
     ng_f = anchor_func(run, f"{TENSOR}.null_grad")
     cfg = build_cfg(run, ng_f)
